@@ -679,6 +679,60 @@ def rule_r8(ctx) -> List[R.Inst]:
     return insts
 
 
+def rule_r9(ctx) -> List[R.Inst]:
+    """the tempo events are consumed by an ascending cursor, so the event list they are filtered from must be sorted by the
+    events' own positions (measure + slot/slots); ordering the packages orders whole measures only — two tempo packages of one
+    measure with interleaved slots stay out of order"""
+    M = ctx.M
+    rid = "C07.R9"
+    fn = M.fn(MAP + ".read_pkgs")
+    file = M.mods[fn.mod].rel
+    # the flattened event list: NAME = [e for pkg in <pkgs> for e in pkg.events]
+    flat = None
+    for n in walk_no_nested(fn.node):
+        if isinstance(n, ast.Assign) and isinstance(n.targets[0], ast.Name) and isinstance(n.value, ast.ListComp) and \
+                len(n.value.generators) == 2 and unparse(n.value.generators[1].iter).endswith(".events"):
+            flat = (n.targets[0].id, n)
+    if flat is None:
+        return [R.undec(rid, "events-sorted", file, fn.node.lineno, "flattened event list not found")]
+    name, node = flat
+    # lists filtered from it and indexed by a cursor
+    derived = {name}
+    for n in walk_no_nested(fn.node):
+        if isinstance(n, ast.Assign) and isinstance(n.targets[0], ast.Name) and isinstance(n.value, ast.ListComp) and \
+                isinstance(n.value.generators[0].iter, ast.Name) and n.value.generators[0].iter.id in derived and \
+                unparse(n.value.elt) == unparse(n.value.generators[0].target):
+            derived.add(n.targets[0].id)
+    swept = sorted({n.value.id for n in ast.walk(fn.node) if isinstance(n, ast.Subscript) and isinstance(n.value, ast.Name) and
+                    n.value.id in derived and n.value.id != name and not isinstance(n.slice, ast.Slice)})
+    sorts = []
+    for n in walk_no_nested(fn.node):
+        c = None
+        if isinstance(n, ast.Expr) and isinstance(n.value, ast.Call) and isinstance(n.value.func, ast.Attribute) and \
+                n.value.func.attr == "sort" and isinstance(n.value.func.value, ast.Name):
+            c, tgt = n.value, n.value.func.value.id
+        elif isinstance(n, ast.Assign) and isinstance(n.targets[0], ast.Name) and isinstance(n.value, ast.Call) and \
+                call_name(n.value) == "sorted" and n.value.args:
+            c, tgt = n.value, n.targets[0].id
+        if c is None:
+            continue
+        key = next((k.value for k in c.keywords if k.arg == "key"), None)
+        katt = key.body.attr if isinstance(key, ast.Lambda) and isinstance(key.body, ast.Attribute) and \
+            isinstance(key.body.value, ast.Name) and key.body.value.id == key.args.args[0].arg else None
+        rev = any(k.arg == "reverse" and not (isinstance(k.value, ast.Constant) and k.value.value is False) for k in c.keywords)
+        sorts.append((tgt, katt, rev, n.lineno))
+    good = [s_ for s_ in sorts if s_[0] in derived and s_[1] == "measure" and not s_[2] and s_[3] >= node.lineno]
+    if good:
+        return [R.ok(rid, "events-sorted", file, good[0][3], idiom=f"{good[0][0]} sorted by the events' own .measure before the sweep of {swept}")]
+    src = unparse(node.value.generators[0].iter)
+    other = [s_ for s_ in sorts if s_[0] == src] or [s_ for s_ in sorts if s_[0] not in derived and s_[3] <= node.lineno]
+    return [R.viol(rid, "events-sorted", file, node.lineno,
+                   f"{swept or [name]} is swept with an ascending cursor but the events are not sorted by their own position"
+                   + (f" ('{other[0][0]}' is sorted instead: that orders whole packages by their integer measure; events of "
+                      f"two packages of one measure stay in package order)" if other else ""),
+                   construct=f"no sort of {sorted(derived)} by .measure" + (f"; sorts {other[0][0]}" if other else ""))]
+
+
 def rule_dep(ctx):
     """obligations inherited from shared code reached through the call graph (sa/props/deps.py)"""
     from .deps import dep_insts
@@ -694,6 +748,7 @@ SPECS = [
     RuleSpec("C07.R6", rule_r6, 1, "A8", "no ordering comparison of a None-able cursor under its own falsiness"),
     RuleSpec("C07.R7", rule_r7, 3, "A8", "one chart per difficulty, from its own packages and the header tempo"),
     RuleSpec("C07.R8", rule_r8, 8, "A7", "times come from the measure table; integration steps 4 * d(measure) / bpm; header tempo first"),
+    RuleSpec("C07.R9", rule_r9, 1, "A5", "events are sorted by their own position before the tempo sweep"),
     RuleSpec("C07.D", rule_dep, 1, "M0", "rules of the shared code (timing engine, list classes, stacker) that the operations of this property reach"),
 ]
 
@@ -707,6 +762,6 @@ META = dict(
         "under the same column key and outlives a package; positions are measure + slot/slots; the contradiction "
         "rule flags a None-able cursor ordered under its own falsiness; every difficulty becomes a chart; and in "
         "read_pkgs the integration steps have the shape 4*(measure difference)/bpm minutes, notes take their time "
-        "from the table entry of their own position, holds end at the entry of their tail."),
+        "from the table entry of their own position, holds end at the entry of their tail. The flattened event list is sorted by the events' own position before the ascending tempo sweep (R9) — ordering the packages orders whole measures only."),
     not_decided="the tempo sweep's control flow as a whole (which tempo is active where) — F15 shows it is wrong on the pinned tree; float rounding",
 )
